@@ -6,6 +6,8 @@ import HotXL.Model.Fn.Logic
 import HotXL.Model.Fn.Info
 import HotXL.Model.Fn.Stat
 import HotXL.Model.Fn.Math
+import HotXL.Model.Fn.Round
+import HotXL.Model.Fn.Agg
 import HotXL.Model.Fn.Text
 import HotXL.Model.Fn.DateTime
 import HotXL.Model.Fn.Eng
@@ -19,7 +21,7 @@ open HotXL
 abbrev Builtin := List Value → Except Err Value
 
 def table : List (String × Builtin) :=
-  Fn.Logic.table ++ Fn.Info.table ++ Fn.Stat.table ++ Fn.Math.table ++ Fn.Text.table ++
+  Fn.Logic.table ++ Fn.Info.table ++ Fn.Stat.table ++ Fn.Agg.table ++ Fn.Math.table ++ Fn.Round.table ++ Fn.Text.table ++
   Fn.DateTime.table ++ Fn.Eng.table ++ Fn.Fin.table ++ Fn.Lookup.table
 
 def isRegistered (name : String) : Bool := Generated.registry.contains name
